@@ -36,9 +36,14 @@ MANIFEST = {
             "Dynamic sites: the guards of every add_request / remove_request site are regenerated and proved free of power / operating-state "
             "tests, with only presence / type guards beyond the registry statement (C05_gen_sites_unconditional); on the construction-order "
             "model routes = registry for every operation sequence (C05_exists_iff_route, C05_guarded_site_counterexample). No handler copies "
-            "or slices its options before reading them (C05_gen_no_options_view_bypass). "
+            "or slices its options before reading them (C05_gen_no_options_view_bypass). Callers: the package's five call sites of "
+            "apply_request / _request_manager and what becomes of the response are regenerated and pinned (C05_gen_request_call_sites: "
+            "returned, stored-and-returned, or handed to the one process_action_response, which only appends the history item — "
+            "C05_gen_response_only_recorded), and no function of game/ that reads a recorded response has an attribute path into the "
+            "simulation (C05_gen_callers_do_not_touch_simulation_on_refusal); rig R-callers: a step in which the agent's action is refused "
+            "leaves the simulation, then and two steps later, as the same step with do-nothing does. "
             "Ties: Gen/RequestCore (shape of __call__/check_valid, unhashable-key guard), Gen/RequestSchema, Gen/ActionTemplates, "
-            "Gen/RequestValidators; rigs R-req (live trees at perturbed states incl. powered-off network devices: status, depth, handler, "
+            "Gen/RequestValidators, Gen/RequestCallers; rigs R-req (live trees at perturbed states incl. powered-off network devices: status, depth, handler, "
             "#args vs the model; route mutations incl. unhashable / None / float / bool elements, empty and over-long requests; every "
             "registered action x existing/missing components), the CONTRACT oracle and search (hand-written contract read from Lean, "
             "evaluated on the object graph; one instance of every route-owning class driven into every gate-falsifying state; every "
